@@ -20,7 +20,7 @@ def g4 : G := { prefixes := [c!"CVSS:4.0/"], vocab := v4, mandatory := v4Mandato
 
 /-- a field of the grammar: `metric:value` with a legal value of a metric of the version -/
 def IsField (g : G) (f : Str) (m : Str) : Prop :=
-  ∃ vs v, (m, vs) ∈ g.vocab ∧ v ∈ vs ∧ f = m ++ ':' :: v
+  ∃ vs v, lookup m g.vocab = some vs ∧ v ∈ vs ∧ f = m ++ ':' :: v
 
 /-- `fields` are fields of the grammar and `ms` are their metrics, position by position -/
 def FieldsOf (g : G) : List Str → List Str → Prop
